@@ -967,7 +967,10 @@ class CallMixin:
         try:
             t = self.const_of(tmpl)
         except KeyError:
-            raise Unsupported("symbolic format template")
+            # a format template that contains data: the datum is parsed as replacement-field syntax
+            fr = self.frames[-1].func.short if self.frames and self.frames[-1].func else "?"
+            self.note(f"dyn-template:{fr}:{tmpl!r}"[:300])
+            return S((OpA("format", (tmpl,) + tuple(a for a in args if isinstance(a, S))),))
         out = []
         auto = 0
         for literal, field, spec, conv in string.Formatter().parse(t):
